@@ -351,7 +351,7 @@ pub fn run(reg: &dyn Registry, ctx: &Ctx) -> Outcome {
             traces: "executions",
             evaluations: "executions",
             distinct: "executions",
-            rule: format!("states = every history up to depth {} over {{next_u32,next_u64,fill_bytes(0|1|4|5|8|9),timer_stats(false|true),set_rounds(1|2|3)}} x initial rounds {{1,2}}; executions = each history with 0 deviations, with 1 deviation of each of 12 kinds at every reading position it consumes, and (short histories) 2 deviations; runs of k consecutive deviating probe readings (k = 1..10 for 7x7 kind pairs; k = 2^j-1, 2^j, 2^j+1 up to 4097 (16385) for the three stuck kinds) starting at every measurement of the first and of the second collection (with a half word pending); plus rounds 64/255 runs and test_timer with a deviation at every 23rd (quick) / every (thorough) of its 1601 readings; each execution is compared step by step (value and readings consumed) and in its final pool with the reference model; all executions are distinct by construction", depth),
+            rule: format!("states = every history up to depth {} over {{next_u32,next_u64,fill_bytes(0|1|4|5|8|9),timer_stats(false|true),set_rounds(1|2|3)}} x initial rounds {{1,2}}; executions = each history with 0 deviations, with 1 deviation of each of 13 kinds at every reading position it consumes, and (short histories) 2 deviations; runs of k consecutive deviating probe readings (k = 1..10 for 7x7 kind pairs; k = 2^j-1, 2^j, 2^j+1 up to 4097 (16385) for the three stuck kinds) starting at every measurement of the first and of the second collection (with a half word pending); plus rounds 64/255 runs and test_timer with a deviation at every 23rd (quick) / every (thorough) of its 1601 readings; each execution is compared step by step (value and readings consumed) and in its final pool with the reference model; all executions are distinct by construction", depth),
         },
     }
 }
